@@ -197,7 +197,8 @@ Inductive origin (c : call value) (n : name) (v : value) : Prop :=
 | OParamDefault (p : param) :
     In p (d_params dc) -> p_name p = n -> (forall w', ~ caller_gives c n w') -> p_default p = Some v -> origin c n v
 | OSigDefault (sp : sigparam value) :
-    In sp (s_params sg) -> sp_name sp = n -> sp_default sp = Some v -> origin c n v
+    In sp (s_params sg) -> sp_name sp = n -> sp_default sp = Some v ->
+    ((forall w', ~ caller_gives c n w') \/ d_mode dc = KWARGS_WITHOUT_NONE) -> origin c n v
 | OUndeclared :
     declared value dc n = false -> caller_gives c n v -> (d_strict dc = false \/ n = self_name) -> origin c n v.
 
@@ -286,7 +287,7 @@ Lemma result_keys : forall c r n, snd (wc_ref c) = WOk r -> In n (keys r) ->
   \/ declared value dc n = true.
 Proof.
   intros c r n H I. unfold keys in I. apply in_map_iff in I. destruct I as [[k v] [<- I]]. cbn [fst].
-  destruct (result_origin _ _ _ _ H I) as [p w Ip <- _ _|p w Ip <- _ _ _|p Ip <- _ _|sp Isp Hn Hd|D [Ig G] _];
+  destruct (result_origin _ _ _ _ H I) as [p w Ip <- _ _|p w Ip <- _ _ _|p Ip <- _ _|sp Isp Hn Hd _|D [Ig G] _];
     try (right; now apply In_declared).
   - (* the value is a signature default: it entered through the unused-parameter loop *)
     destruct (wc_ok_inv _ _ H) as (xs & l12 & l3 & A & F12 & F3 & ->).
@@ -331,7 +332,7 @@ Proof. intros l n A I. unfold all_in_sig in A. rewrite forallb_forall in A. rewr
 
 (* ---------- C12: the gate ---------- *)
 Lemma fill_In : forall ps (d b : dict) n v, fill value ps d = Some b -> In (n, v) b ->
-  In (n, v) d \/ exists sp, In sp ps /\ sp_name sp = n /\ sp_default sp = Some v.
+  In (n, v) d \/ exists sp, In sp ps /\ sp_name sp = n /\ sp_default sp = Some v /\ dget n d = None.
 Proof.
   induction ps as [|sp ps IH]; intros d b n v H I; simpl in H.
   - injection H as <-. contradiction.
@@ -347,6 +348,32 @@ Proof.
       * destruct (IH _ _ _ _ F I) as [?|[sp' [? ?]]]; [tauto|]. right. exists sp'. split; [now right | assumption].
 Qed.
 
+(* a name the caller passes is a key of the result dictionary *)
+Lemma supplied_in_result : forall c r n w, snd (wc_ref c) = WOk r -> caller_gives c n w -> In n (keys r).
+Proof.
+  intros c r n w H G. destruct (wc_ok_inv _ _ H) as (xs & l12 & l3 & A & F12 & F3 & ->).
+  destruct (gives_arrival _ _ _ _ A G) as [x [Ix Ex]].
+  apply keys_dsets_In. left. unfold keys. rewrite map_app. apply in_or_app. left. fold (keys l12).
+  rewrite (item_ok_keys _ _ F12), map_map. apply in_map_iff. exists x. split; [|assumption].
+  unfold titem. cbn [fst]. now rewrite Ex.
+Qed.
+
+(* ... and, the names of one call being pairwise distinct, it carries the output of that argument's own step *)
+Lemma supplied_result : forall c r xs x, snd (wc_ref c) = WOk r -> arrival c = Some xs ->
+  NoDup (map (fun y : tagged => fst (snd y)) xs) -> In x xs ->
+  exists v, snd (snd (titem x)) = WOk v /\ dget (fst (snd x)) r = Some v.
+Proof.
+  intros c r xs x H A ND Ix. destruct (wc_ok_inv _ _ H) as (xs' & l12 & l3 & A' & F12 & F3 & ->).
+  rewrite A in A'. injection A' as <-.
+  destruct (Forall2_in_l _ _ _ _ _ (titem x) F12 (in_map _ _ _ Ix)) as [[k v] [Ikv [Hk Hv]]].
+  cbn [fst snd] in Hk, Hv. unfold titem in Hk. cbn [fst] in Hk. subst k.
+  exists v. split; [exact Hv|]. rewrite dsets_app, dget_dsets_notin.
+  - apply dget_dsets_in; [|assumption]. rewrite (item_ok_keys _ _ F12), map_map. exact ND.
+  - rewrite (item_ok_keys _ _ F3). unfold ValidateRef.uitems. rewrite map_map. cbn [fst]. intro U.
+    apply in_map_iff in U. destruct U as [p [E Ip]]. apply unused_In in Ip. destruct Ip as [Ip N]. apply N, In_useds.
+    split; [|now apply In_declared]. rewrite E, (item_ok_keys _ _ F12), map_map. apply in_map_iff. exists x. auto.
+Qed.
+
 Lemma In_norm : forall mode (r : dict) kv, In kv (norm value is_none mode r) -> In kv r.
 Proof. intros [] r kv H; simpl in H; try assumption. apply filter_In in H. tauto. Qed.
 
@@ -357,20 +384,26 @@ Proof.
   destruct (snd (wc_ref c)) as [r|e pn]; [eauto | discriminate].
 Qed.
 
+Lemma dget_norm_none : forall mode (r : dict) n, NoDup (keys r) -> dget n (norm value is_none mode r) = None ->
+  dget n r = None \/ mode = KWARGS_WITHOUT_NONE.
+Proof. intros [] r n ND H; cbn in H; auto. Qed.
+
 Theorem gate : forall is_async c j b,
   self_guard c = true ->
   vrun is_async c = (j, FBody b) ->
   forall n v, In (n, v) b -> origin c n v.
 Proof.
   intros is_async c j b SG H n v I. destruct (run_body_inv _ _ _ _ H) as [r [W O]].
-  rewrite observe_normal in O by eauto using result_nodup, result_self_ok.
+  assert (NDr := result_nodup _ _ W).
+  rewrite observe_normal in O by eauto using result_self_ok.
   destruct (pyb value sg (norm value is_none (d_mode dc) r)) as [b'|e] eqn:P; [|discriminate].
   cbn in O. injection O as ->. unfold pyb in P. destruct (negb (s_varkw sg) && _); [discriminate|].
   destruct (fill value (s_params sg) _) as [b0|] eqn:F; [|discriminate]. injection P as <-.
   apply in_app_or in I. destruct I as [I|I].
-  - destruct (fill_In _ _ _ _ _ F I) as [I'|[sp [? [? ?]]]].
+  - destruct (fill_In _ _ _ _ _ F I) as [I'|[sp [? [? [? Dn]]]]].
     + eapply result_origin; [eassumption | eapply In_norm; eassumption].
-    + eapply OSigDefault; eauto.
+    + eapply OSigDefault; eauto. destruct (dget_norm_none _ _ _ NDr Dn) as [Dr|Md]; [left | now right].
+      intros w' G. apply dget_None_keys in Dr. apply Dr. eapply supplied_in_result; eassumption.
   - unfold extras in I. apply filter_In in I. eapply result_origin; [eassumption | eapply In_norm; apply I].
 Qed.
 
@@ -399,6 +432,18 @@ Proof.
   apply of_verdict_ok in Hv. now apply (R (snd kv)).
 Qed.
 
+(* the first failing step wins: its exception leaves, nothing behind it has been executed *)
+Theorem first_failure_arrival : forall is_async c pre x post e pn,
+  arrival c = Some (pre ++ x :: post) ->
+  Forall (fun y => exists v, snd (snd (titem y)) = WOk v) pre ->
+  snd (snd (titem x)) = WRaise e pn ->
+  vrun is_async c = (flat_map (fun y => fst (snd (titem y))) pre ++ fst (snd (titem x)), FRaise e pn).
+Proof.
+  intros is_async c pre x post e pn A Hpre Hm. rewrite run_ref, (wc_ref_arrival _ _ A), map_app. cbn [map].
+  rewrite (seqm_first_failure (map titem pre) (titem x) (map titem post) e pn); [|apply Forall_map; exact Hpre | exact Hm].
+  cbn [mbind fst snd]. rewrite flat_map_concat_map, map_map, <- flat_map_concat_map. reflexivity.
+Qed.
+
 (* the first rejection wins: its exception leaves, no validator behind it has been called *)
 Theorem first_rejection : forall is_async c pre x post p,
   arrival c = Some (pre ++ x :: post) ->
@@ -409,13 +454,52 @@ Theorem first_rejection : forall is_async c pre x post p,
   (flat_map (fun y => fst (snd (titem y))) pre ++ spec_journal value is_none p (snd (snd x)),
    FRaise (p_exc p) (Some (fst (snd x)))).
 Proof.
-  intros is_async c pre x post p A Hpre L R. rewrite run_ref, (wc_ref_arrival _ _ A), map_app. cbn [map].
+  intros is_async c pre x post p A Hpre L R.
   assert (Hm : snd (snd (titem x)) = WRaise (p_exc p) (Some (fst (snd x)))).
   { unfold titem. cbn [snd]. unfold ValidateRef.step_m. rewrite L, pv_spec, R. cbn. now rewrite (lookup_param_name _ _ _ _ L). }
   assert (Hj : fst (snd (titem x)) = spec_journal value is_none p (snd (snd x))).
   { unfold titem. cbn [snd]. unfold ValidateRef.step_m. now rewrite L, pv_journal. }
-  rewrite (seqm_first_failure (map titem pre) (titem x) (map titem post) (p_exc p) (Some (fst (snd x)))); [|apply Forall_map; exact Hpre | exact Hm].
-  cbn [mbind fst snd]. rewrite Hj, flat_map_concat_map, map_map, <- flat_map_concat_map. reflexivity.
+  rewrite (first_failure_arrival is_async c pre x post _ _ A Hpre Hm), Hj. reflexivity.
+Qed.
+
+Lemma seqm_all_ok : forall (items : list (name * M value)) l, Forall2 item_ok items l ->
+  seqm items = (flat_map (fun it : name * M value => fst (snd it)) items, WOk l).
+Proof.
+  induction 1 as [|[k m] [k' v] items l [Hk Hv] _ IH]; [reflexivity|].
+  cbn [ValidateRef.seqm flat_map fst snd] in *. subst k'. rewrite IH. destruct m as [j r]. cbn [snd] in Hv. subst r.
+  unfold mbind, ret. now rewrite app_nil_r.
+Qed.
+
+Lemma useds_keys : forall l l' : dict, keys l = keys l' -> useds l = useds l'.
+Proof.
+  intros l l' E. unfold ValidateRef.useds.
+  rewrite (flat_map_concat_map _ l), (flat_map_concat_map _ l'), <- (map_map fst (usedk value dc) l), <- (map_map fst (usedk value dc) l').
+  unfold keys in E. now rewrite E.
+Qed.
+
+(* ... also in the unused-parameter loop (external source, required, default cascade): every argument passed,
+   the Parameters in front of p got their value, the step of p fails *)
+Theorem first_failure_unused : forall is_async c xs pre p post e pn,
+  arrival c = Some xs ->
+  Forall (fun y => exists v, snd (snd (titem y)) = WOk v) xs ->
+  unused_params (useds (map snd xs)) = pre ++ p :: post ->
+  Forall (fun q => exists v, snd (u_m q) = WOk v) pre ->
+  snd (u_m p) = WRaise e pn ->
+  vrun is_async c =
+  (flat_map (fun y => fst (snd (titem y))) xs ++ flat_map (fun q => fst (u_m q)) pre ++ fst (u_m p), FRaise e pn).
+Proof.
+  intros is_async c xs pre p post e pn A Hxs U Hpre Hp. rewrite run_ref, (wc_ref_arrival _ _ A).
+  assert (exists l12, Forall2 item_ok (map titem xs) l12) as [l12 F12].
+  { clear A U. induction xs as [|x xs IH]; [exists []; constructor|]. inversion Hxs as [|? ? [v Hv] Hxs']; subst.
+    destruct (IH Hxs') as [l F]. exists ((fst (snd x), v) :: l). constructor; [split; [reflexivity | exact Hv] | exact F]. }
+  rewrite (seqm_all_ok _ _ F12). cbn [mbind]. unfold ValidateRef.tail_m.
+  assert (Ek : useds l12 = useds (map snd xs)).
+  { apply useds_keys. rewrite (item_ok_keys _ _ F12). unfold keys. now rewrite !map_map. }
+  rewrite Ek, U. unfold ValidateRef.uitems. rewrite map_app. cbn [map].
+  rewrite (seqm_first_failure (map (fun q => (p_name q, u_m q)) pre) (p_name p, u_m p) _ e pn);
+    [|apply Forall_map; exact Hpre | exact Hp].
+  cbn [mbind fst snd]. rewrite (flat_map_concat_map _ (map _ pre)), map_map, <- flat_map_concat_map.
+  rewrite (flat_map_concat_map _ (map titem xs)), map_map, <- flat_map_concat_map. reflexivity.
 Qed.
 
 (* an exception that names a parameter stems from that parameter's own Parameter *)
@@ -602,6 +686,31 @@ Proof.
   rewrite dsets_app. apply dget_dsets_in; [|assumption].
   rewrite (item_ok_keys _ _ F3). unfold ValidateRef.uitems. rewrite map_map. cbn [fst].
   now apply unused_names_nodup.
+Qed.
+
+(* the step of the unused-parameter loop, spelled out: external source first, then required / default cascade *)
+Definition cascade_outcome (p : param) : M value :=
+  if spec_required value p then ([], WRaise (p_exc p) (Some (p_name p)))
+  else match p_default p with
+       | Some d => ([], WOk d)
+       | None => match sig_default value sg (p_name p) with
+                 | Some d => ([], WOk d)
+                 | None => ([], WRaise ValidateExceptionC None)
+                 end
+       end.
+
+Theorem unused_outcome : forall p,
+  u_m p = match p_ext p with
+          | Some x => if e_has x then match e_load x with Ok w => PV p w | Raise y => ([], WRaise y None) end
+                      else cascade_outcome p
+          | None => cascade_outcome p
+          end.
+Proof.
+  intro p. assert (C : cascade_m value sg p = cascade_outcome p).
+  { unfold cascade_m, cascade_outcome. rewrite req_spec. destruct (spec_required value p); [reflexivity|].
+    destruct (p_default p); [reflexivity|]. destruct (sig_default value sg (p_name p)); reflexivity. }
+  unfold ValidateRef.u_m. rewrite C. destruct (p_ext p) as [x|]; [|reflexivity]. destruct (e_has x); [|reflexivity].
+  destruct (e_load x); reflexivity.
 Qed.
 
 End Gate.
